@@ -49,27 +49,29 @@ func (c StackCfg) outboundBudget() uint32 {
 
 // QueryObs is everything observed for one client query.
 type QueryObs struct {
-	Client        string   `json:"client"`
-	Query         string   `json:"query"`
-	Replies       int      `json:"replies"`
-	Rcode         string   `json:"rcode"`
-	AD            bool     `json:"ad"`
-	Answers       []string `json:"answers,omitempty"`
-	EDE           []string `json:"ede,omitempty"`
-	ElapsedMs     int64    `json:"elapsed_ms"`
-	Packets       int      `json:"packets"`
-	TCPPackets    int      `json:"tcp_packets"`
-	SinkPackets   int      `json:"sink_packets"`
-	AfterReply    int      `json:"packets_after_reply"`
-	Foreign       int      `json:"foreign_packets_ignored,omitempty"`
-	ForeignSeen   []string `json:"foreign_packets,omitempty"`
-	Trees         uint64   `json:"ledgers_published"`
-	Debits        int64    `json:"ledger_outbound_debits"`
-	Exhausted     []string `json:"exhausted,omitempty"`
-	Quiesced      bool     `json:"quiesced"`
-	Watchdog      bool     `json:"watchdog,omitempty"`
-	ContractBreak []string `json:"contract_breaches,omitempty"`
-	Upstream      []string `json:"upstream,omitempty"`
+	Client      string   `json:"client"`
+	Query       string   `json:"query"`
+	Replies     int      `json:"replies"`
+	Rcode       string   `json:"rcode"`
+	AD          bool     `json:"ad"`
+	Answers     []string `json:"answers,omitempty"`
+	EDE         []string `json:"ede,omitempty"`
+	ElapsedMs   int64    `json:"elapsed_ms"`
+	Packets     int      `json:"packets"`
+	TCPPackets  int      `json:"tcp_packets"`
+	SinkPackets int      `json:"sink_packets"`
+	AfterReply  int      `json:"packets_after_reply"`
+	Foreign     int      `json:"foreign_packets_ignored,omitempty"`
+	ForeignSeen []string `json:"foreign_packets,omitempty"`
+	Trees       uint64   `json:"ledgers_published"`
+	Debits      int64    `json:"ledger_outbound_debits"`
+	Exhausted   []string `json:"exhausted,omitempty"`
+	// DNSSEC operations accounted by the ledgers published in the window
+	DNSSECOps     map[string]int64 `json:"ledger_dnssec_ops,omitempty"`
+	Quiesced      bool             `json:"quiesced"`
+	Watchdog      bool             `json:"watchdog,omitempty"`
+	ContractBreak []string         `json:"contract_breaches,omitempty"`
+	Upstream      []string         `json:"upstream,omitempty"`
 
 	reply     *dns.Msg
 	edeCodes  []uint16
@@ -259,6 +261,10 @@ func (s *stackRun) ask(client string, q QuerySpec) *QueryObs {
 	from := u.Log.Len()
 	ex0 := middleware.VerifC12Exhaustions(mode)
 	tr0, db0 := middleware.VerifC12Fanout()
+	var dw0 map[string]int64
+	if mode != "off" {
+		dw0 = middleware.VerifC12DNSSECWork(mode)
+	}
 
 	qm := q.msg(uint16(1000 + s.seq))
 	qraw, _ := qm.Pack()
@@ -294,6 +300,15 @@ func (s *stackRun) ask(client string, q QuerySpec) *QueryObs {
 	obs.Trees = tr1 - tr0
 	obs.Debits = int64(db1 - db0)
 	obs.Exhausted = exhaustedDelta(ex0, ex1)
+	if mode != "off" {
+		dw1 := middleware.VerifC12DNSSECWork(mode)
+		obs.DNSSECOps = map[string]int64{}
+		for _, op := range middleware.VerifC12DNSSECOps {
+			if d := dw1[op] - dw0[op]; d != 0 {
+				obs.DNSSECOps[op] = d
+			}
+		}
+	}
 
 	for _, p := range u.Log.Since(from) {
 		p := p
